@@ -9,7 +9,7 @@ claim("C19",
 
 claim("C04",
   "guarded reachability over SSA (type guard, reply filter, post guard), argument-agreement tables, escape/call-site confinement, lockset",
-  "Decides from the source that only Call/Post can reach an implementation method (type guard in the generic stub + raw stubs never escape + stub methods only called from their Receive), that the reply filter compares service/object/action/id and is single-shot and registered before the send, that ids are advanced under a mutex, that error/reply headers carry the request's address and id in the right positions, that no reply follows a Post once the method ran and no Channel implementation answers an error to anything but a Call, and that the messages of one object (service-side mailbox, client-side object queue) are handed to it one at a time by one goroutine. Necessary conditions of exactly-one-own-answer; they hold on every path, hence for every schedule. The shutdown rule of C11 (stream closed before the handler mutex is taken and every handler closed) is part of this check: a call registering during shutdown gets its one outcome from the sweep or from a failing send.",
+  "Decides from the source that only Call/Post can reach an implementation method (type guard in the generic stub + raw stubs never escape + stub methods only called from their Receive), that the reply filter compares service/object/action/id and is single-shot and registered before the send, that ids are advanced under a mutex, that error/reply headers carry the request's address and id in the right positions, that no reply follows a Post once the method ran and no Channel implementation answers an error to anything but a Call, and that the messages of one object (service-side mailbox, client-side object queue) are handed to it one at a time by one goroutine. Necessary conditions of exactly-one-own-answer; they hold on every path, hence for every schedule. The shutdown rule of C11 (stream closed before the handler mutex is taken and every handler closed) is part of this check: a call registering during shutdown gets its one outcome from the sweep or from a failing send. One stream write per message (C10.single-write, shared): a request or an answer cannot be split by another caller's bytes.",
   "Does not decide exactly-once execution or own-result under interleavings (runtime); mailbox FIFO and net semantics trusted. D9 and D12 were repaired in /repo (fixed: lines in known_findings.txt).",
   "DESIGN.md §3 C04")
 
@@ -21,7 +21,7 @@ claim("C06",
 
 claim("C10",
   "ownership (who touches the stream / who calls raw Read-Write) + must-pass-once path rules over SSA + lockset",
-  "Decides that Message.Write hands its writer to exactly one WriteN call with the bytes of a private buffer filled header-then-payload, refuses size mismatch, that the endpoint's stream is only used by Send→Message.Write, process→Message.Read, Close and String, that WriteN hands the whole remaining buffer to each Write, that process dispatches synchronously between reads (directly or through a receive helper of its own), that a handler slot is found and filled in one critical section, and that enqueueing is non-blocking, under the handler mutex, only on the matching filter and offered to every handler. The goroutine draining an AddHandler queue does not select between the queue and another channel (accepted messages are not abandoned). ",
+  "Decides that Message.Write hands its writer to exactly one WriteN call with the bytes of a private buffer filled header-then-payload, refuses size mismatch, that the endpoint's stream is only used by Send→Message.Write, process→Message.Read, Close and String, that WriteN hands the whole remaining buffer to each Write, that process dispatches synchronously between reads (directly or through a receive helper of its own), that a handler slot is found and filled in one critical section, and that enqueueing is non-blocking, under the handler mutex, only on the matching filter and offered to every handler. The goroutine draining an AddHandler queue does not select between the queue and another channel (accepted messages are not abandoned).  Message.Read takes exactly the announced bytes off the stream with the exact reader into storage of its own (C01.exact-reads, shared).",
   "Atomicity of one Write on each transport and per-sender ordering under all schedules are not decided.",
   "DESIGN.md §3 C10")
 
@@ -33,8 +33,8 @@ claim("C11",
 
 claim("C12",
   "call-graph reachability (CHA/VTA) from callbacks run under the endpoint lock + error-flow in generated stubs + guarded reachability",
-  "Decides that closers/filters (which run under handlersMutex) cannot re-acquire it or block, that dispatch never blocks and answers a full-queue Call with an Error, that every argument-decoding error in a generated stub becomes SendError without calling the method, that unknown service/object/action are answered, that removal entry points delete exactly the id named, and that no explicit panic is reachable from a Receive implementation. Nothing called with a mutex of bus/** held comes back, through the call graph (callbacks by type flow), to an acquisition of a mutex of that class (C12.locks reentrant-through); a wire integer indexes or slices only behind a comparison with the length indexed (C07.wire-index). No struct holding a mutex is copied; an error value built in bus/** is returned, sent, logged or stored, never dropped (C12.errors-reported).",
-  "Liveness under floods, implicit panics and C07's unbounded allocations are not decided. D10 (self-deadlock through signal/disconnect closers) was found by this rule, repaired in /repo (63a82dd) and is recorded as fixed in known_findings.txt.",
+  "Decides that closers/filters (which run under handlersMutex) cannot re-acquire it or block, that dispatch never blocks and answers a full-queue Call with an Error, that every argument-decoding error in a generated stub becomes SendError without calling the method, that unknown service/object/action are answered, that removal entry points delete exactly the id named, and that no explicit panic is reachable from a Receive implementation. Nothing called with a mutex of bus/** held comes back, through the call graph (callbacks by type flow), to an acquisition of a mutex of that class (C12.locks reentrant-through); a wire integer indexes or slices only behind a comparison with the length indexed (C07.wire-index). No struct holding a mutex is copied; an error value built in bus/** is returned, sent, logged or stored, never dropped (C12.errors-reported). Bounded service (C12.bounded-service, over the VTA call graph from the goroutine that serves an object): every stream write reachable from it is preceded by a write deadline and nothing on its path sleeps. KNOWN FINDING D26: endPoint.Send writes replies with no deadline — a client that stops reading stops the object for everyone (reproduced, findings/D26).",
+  "Liveness under floods beyond the two waits named (write without deadline, sleep), implicit panics and C07's unbounded allocations are not decided. D10 (self-deadlock through signal/disconnect closers) was found by this rule, repaired in /repo (63a82dd) and is recorded as fixed in known_findings.txt.",
   "DESIGN.md §3 C12")
 
 claim("C13",
@@ -83,37 +83,37 @@ claim("C08",
 
 claim("C01",
   "wire-shape extraction over SSA and comparison with the documentation + guarded reachability + ownership of the stream",
-  "Decides the layout and refusal clauses from the source: shape(Header.Write) = shape(Header.Read) = struct header_t of the documentation (order, widths, 28 bytes), magic big-endian and every primitive little-endian with the width of its Go type (derived from the primitive bodies); nil from Header.Read only across valid magic/version/type; payload allocation and read only behind a validated header and Size <= MaxPayloadSize; exactly two exact reads on the stream, payload always assigned; ReadN/WriteN retry loops complete and accept data arriving with EOF; one buffered write per message. Nobody but ReadN pulls header or payload off the stream (C08.readn-calls, shared); a length compared with a limit through a local variable or a parameter is followed to the limit it names. ReadN/WriteN reach the next Read/Write only across err == nil.",
+  "Decides the layout and refusal clauses from the source: shape(Header.Write) = shape(Header.Read) = struct header_t of the documentation (order, widths, 28 bytes), magic big-endian and every primitive little-endian with the width of its Go type (derived from the primitive bodies); nil from Header.Read only across valid magic/version/type; payload allocation and read only behind a validated header and Size <= MaxPayloadSize; exactly two exact reads on the stream, payload always assigned; ReadN/WriteN retry loops complete and accept data arriving with EOF; one buffered write per message. Nobody but ReadN pulls header or payload off the stream (C08.readn-calls, shared); a length compared with a limit through a local variable or a parameter is followed to the limit it names. ReadN/WriteN reach the next Read/Write only across err == nil. The payload Message.Read stores is storage of that read alone (never a re-slice of the receiver's previous payload, a package-level buffer or a pool).",
   "Value-level round trip for all field values, lengths and fragmentations is not decided; encoding/binary trusted.",
   "DESIGN.md §3 C01")
 
 claim("C02",
   "dispatch-table agreement (AST constants + SSA return types) + wire-shape comparison writer/reader + consumed-equals-returned on TypeReaders with value identity",
-  "Decides that every value type's constant signature has a row in NewValue's table whose constructor returns that type, that each Write emits signature + exactly the shape its constructor reads, that every signature-driven reader re-emits each value it read with the dual primitive, in order, into a buffer created by that call, that opaque values store what the reader returned, and that size limits are inclusive on every side. The value decoders and signature readers consume their source only through the repository's decoders (no read-ahead wrapper, no probe of the concrete source: C02.reader-discipline).",
+  "Decides that every value type's constant signature has a row in NewValue's table whose constructor returns that type, that each Write emits signature + exactly the shape its constructor reads, that every signature-driven reader re-emits each value it read with the dual primitive, in order, into a buffer created by that call, that opaque values store what the reader returned, and that size limits are inclusive on every side. The value decoders and signature readers consume their source only through the repository's decoders (no read-ahead wrapper, no probe of the concrete source: C02.reader-discipline). meta/signature and type/value fill no package-level table outside their initialisers (a reader memo keyed by wire text hands one type's reader to another).",
   "Equality of decoded values for all inputs and depths is not decided; bytes.Buffer trusted.",
   "DESIGN.md §3 C02")
 
 claim("C03",
   "table agreement across four independently maintained codec descriptions + wire-shape comparison of every reader/writer pair",
-  "Decides that type/basic primitives, signature constructors (letter, IDL, reader width, Go type, template primitives), the reflection encoder/decoder kind switches, the Encode/Decode type switches and the documentation agree row by row; that slice/map are a 32-bit count plus that many elements (key before value) on every side with fresh storage per decoded element; and that all checked-in readX/writeX pairs have identical field-by-field wire shapes. Every generated writer writes the fields of its struct in declaration order, the order the reflection codec walks (C03.pairs field-order).",
+  "Decides that type/basic primitives, signature constructors (letter, IDL, reader width, Go type, template primitives), the reflection encoder/decoder kind switches, the Encode/Decode type switches and the documentation agree row by row; that slice/map are a 32-bit count plus that many elements (key before value) on every side with fresh storage per decoded element; and that all checked-in readX/writeX pairs have identical field-by-field wire shapes. Every generated writer writes the fields of its struct in declaration order, the order the reflection codec walks (C03.pairs field-order). meta/signature and type/value keep no package-level table; a table kept by the reflection codecs is keyed by the reflect.Type itself, never by Type.String()/Name()/Kind().",
   "The generator is analysed under C05 (emitted operations), here only its scalar rows and its checked-in output; value equality is not decided.",
   "DESIGN.md §3 C03")
 
 claim("C09",
   "table agreement between grammar atoms, switch cases, constructor rows and printer tokens (AST constants) + guarded reachability on Parse",
-  "Decides that every grammar letter has a case whose constructor prints that letter, that each composite printer emits exactly the atoms of its grammar production (and the struct-name patterns accept the same identifiers inside and outside the template brackets), that Parse succeeds only at end of input with one type and keeps no state, and that node builders cannot panic on error nodes (unchecked assertions only on terminals, parallel slices length-checked). The Go representation of a struct or tuple names every field after the member's name (C09.go-fields).",
+  "Decides that every grammar letter has a case whose constructor prints that letter, that each composite printer emits exactly the atoms of its grammar production (and the struct-name patterns accept the same identifiers inside and outside the template brackets), that Parse succeeds only at end of input with one type and keeps no state, and that node builders cannot panic on error nodes (unchecked assertions only on terminals, parallel slices length-checked). The Go representation of a struct or tuple names every field after the member's name (C09.go-fields). meta/signature fills no package-level table outside its initialiser; a member list the parser produced is not cut down before the type is built from it.",
   "Grammar-wide identity, rejection of every other string and goparsec internals are not decided.",
   "DESIGN.md §3 C09")
 
 claim("C18",
   "table agreement between IDL printers and IDL grammar (AST constants) + component-registration and assertion checks over SSA",
-  "Decides that every IDL type name printed is parsed back by the same constructor, that composite and line-level tokens printed are atoms of the parser, that the uid is read back as printed into a uint32, that composite types register all their components, and that IDL node builders assert unchecked only to terminals. The IDL parser's entry points use no package-level variable that changes after initialisation (C18.stateless); no address of a loop variable shared by all iterations is kept beyond its iteration (C18.loop-variables). A type reference hands a question on to the type it designates only while marked as being visited and refuses to resolve while marked (C18.recursion; D24, fixed). A declaration parsed is registered in the scope on every successful path of its parser, not on one branch of several. Declared type names are compared as stored; every non-atom position of a composite type production is held by the recursive type parser.",
+  "Decides that every IDL type name printed is parsed back by the same constructor, that composite and line-level tokens printed are atoms of the parser, that the uid is read back as printed into a uint32, that composite types register all their components, and that IDL node builders assert unchecked only to terminals. The IDL parser's entry points use no package-level variable that changes after initialisation (C18.stateless); no address of a loop variable shared by all iterations is kept beyond its iteration (C18.loop-variables). A type reference hands a question on to the type it designates only while marked as being visited and refuses to resolve while marked (C18.recursion; D24, fixed). A declaration parsed is registered in the scope on every successful path of its parser, not on one branch of several. Declared type names are compared as stored; every non-atom position of a composite type production is held by the recursive type parser. Every signature the IDL printer parses in a function holding the type set is registered in that set on every successful path; the exception for nodifyPackage's unchecked assertion covers the string assertion only.",
   "Identity on all meta-objects and parser totality on arbitrary text are not decided. Declared names (struct, field, action) are printed as stored. D14 (void printed as 'nothing') was repaired in /repo.",
   "DESIGN.md §3 C18")
 
 claim("C20",
   "def-use / must-pass rules on reflect values + guarded reachability on kind tests (SSA)",
-  "Decides that fresh reflect values are populated by convertFrom before being stored, per loop iteration, key and value from the same source entry; that every scalar setter is behind a same-family kind test and stores the source's own accessor value (AsInt64 exact); that composite converters touch the destination only after testing the source kind; that slices are converted index by index over the whole source and struct fields paired by name; and that element failures propagate. The integer extraction helper refuses by kind only: no refusal once Value.Int / Value.Uint was read.",
+  "Decides that fresh reflect values are populated by convertFrom before being stored, per loop iteration, key and value from the same source entry; that every scalar setter is behind a same-family kind test and stores the source's own accessor value (AsInt64 exact); that composite converters touch the destination only after testing the source kind; that slices are converted index by index over the whole source and struct fields paired by name; and that element failures propagate. The integer extraction helper refuses by kind only: no refusal once Value.Int / Value.Uint was read. A table kept by the conversion package is keyed by the reflect.Types concerned, not by a rendering of them.",
   "Value equality for all inputs and widening/narrowing semantics are not decided; reflect trusted.",
   "DESIGN.md §3 C20")
 
@@ -124,6 +124,6 @@ for pid in ["C01","C02","C03","C04","C06","C07","C08","C09","C10","C11","C12","C
 
 claim("C05",
   "emitted-operation extraction over the code generator's syntax tree (jen call chains, string fragments, Type.Marshal/Unmarshal calls, loops over Members/Params) and dual comparison of the write and read sides + per-iteration completeness on SSA",
-  "Decides, on the generator itself (meta/signature, meta/stub, meta/idl), the structural clauses without which the generated halves cannot be inverses for any IDL: every scalar constructor names the Write and Read primitive of its own letter; for list, map, tuple, struct and enum the operations emitted by Marshal are the dual of those emitted by Unmarshal (same primitives, same members in the same order, same Go expression on both sides, generated loops in the same places behind a 32-bit count, struct read/write functions declared under the names the call sites use and covering every member); every emitter that encodes or decodes a parameter list handles each declared parameter exactly once per iteration with the parameter's own type (stub method, signal and property bodies, proxy bodies); the stub encodes the result after decoding the parameters. The reflection codec the generated proxy uses is held to the composite/kind rules of C03 (fresh storage per decoded element, every kind through its own primitive). Inside an emitted loop the element handed to the member's emitter is not named through the container parameter and the emitted index (nested containers re-declare it). Two clauses of 'the output compiles' that are decidable on the generator are also decided: a generator mode flag read by an emitter is lowered again before the declarations shared by both halves are rendered (C05.mode-flag), and method, signal and property names of one interface are made unique within one set (C05.name-space).",
+  "Decides, on the generator itself (meta/signature, meta/stub, meta/idl), the structural clauses without which the generated halves cannot be inverses for any IDL: every scalar constructor names the Write and Read primitive of its own letter; for list, map, tuple, struct and enum the operations emitted by Marshal are the dual of those emitted by Unmarshal (same primitives, same members in the same order, same Go expression on both sides, generated loops in the same places behind a 32-bit count, struct read/write functions declared under the names the call sites use and covering every member); every emitter that encodes or decodes a parameter list handles each declared parameter exactly once per iteration with the parameter's own type (stub method, signal and property bodies, proxy bodies); the stub encodes the result after decoding the parameters. The reflection codec the generated proxy uses is held to the composite/kind rules of C03 (fresh storage per decoded element, every kind through its own primitive). Inside an emitted loop the element handed to the member's emitter is not named through the container parameter and the emitted index (nested containers re-declare it). Two clauses of 'the output compiles' that are decidable on the generator are also decided: a generator mode flag read by an emitter is lowered again before the declarations shared by both halves are rendered (C05.mode-flag), and method, signal and property names of one interface are made unique within one set (C05.name-space). The emitted subscription goroutine leaves its loop early only on a closed payload channel (!ok) and on a decoding error (emitted statements read off jen calls and parsed raw fragments).",
   "NOT decided: that the generated text compiles for every IDL (identifier hygiene, imports, name collisions, well-formedness of the string fragments), that a signal's tuple type on the subscriber side is the tuple of the emitter's parameters, equality of values end to end. The generator is never run; only its source is analysed, so a check of the generated output for an unseen IDL is out of reach of this technique.",
   "DESIGN.md §3 C05")
